@@ -1,0 +1,13 @@
+//go:build verif
+
+package client
+
+// Exports for the verification harness (build tag verif only; nothing here is compiled otherwise).
+
+// VerifEscapeQuotes exposes escapeQuotes.
+func VerifEscapeQuotes(s string) string { return escapeQuotes(s) }
+
+// VerifMangleContentType exposes mangleContentType.
+func VerifMangleContentType(mediaType, boundary string) string {
+	return mangleContentType(mediaType, boundary)
+}
